@@ -9,6 +9,7 @@ if ! git diff --quiet; then echo "refusing: /repo has uncommitted changes"; exit
 git apply "$patch" || { echo "patch does not apply"; exit 2; }
 trap 'git -C /repo checkout -- . ; git -C /repo clean -fdq src tests 2>/dev/null' EXIT
 cd /verif
+exitcode=0
 for id in "$@"; do
   out=$(VERIF_EVIDENCE_DIR=/tmp/ev-trial ./check "$id" --tier quick 2>&1); code=$?
   v=$(echo "$out" | grep -m1 '^VIOLATION' ); s=$(echo "$out" | grep -A1 -m1 '^VIOLATION' | tail -1)
@@ -16,3 +17,4 @@ for id in "$@"; do
   [ -n "$v" ] && echo "    $s"
   [ $code -eq 2 ] && echo "$out" | tail -5
 done
+exit 0
